@@ -92,6 +92,10 @@ def gen_op(rng, w):
     if kind in ("genotype", "debug"):
         op["gene"] = rng.choice(genes + ([failing] if kind == "genotype" and rng.random() < 0.1 else []))
         op["out"] = rng.choice(OUT_KINDS)
+        if kind == "genotype" and rng.random() < 0.12:
+            # exome route: copy-number calling off, shipped illumina profile (which does not know the
+            # generated gene -> reported error); it must leave nothing behind for later operations
+            op["exome"] = rng.choice(["exome", "wxs", "wes"])
     elif kind == "multi":
         gl = list(genes)
         rng.shuffle(gl)
@@ -424,6 +428,7 @@ def update_stats(acc, plan, out):
         acc["solves"] += res["solver"]["solves"]
         acc["clock_backward"] += res.get("clock_backward", 0)
         acc["clock_reads"] += res.get("clock_reads", 0)
+        acc["clock_span"] = acc.get("clock_span", 0.0) + res.get("clock_span", 0.0)
         for op, r in zip(seg["ops"], res["ops"]):
             acc["ops"][op["op"]] = acc["ops"].get(op["op"], 0) + 1
             acc["state_checks"] += r.get("state_checks", 0)
@@ -487,6 +492,7 @@ def evidence(acc):
                 "reported_errors": acc["errors_reported"],
                 "clock_reads": acc["clock_reads"],
                 "clock_backward_jumps": acc["clock_backward"],
+                "simulated_clock_time_covered_s": round(acc.get("clock_span", 0.0)),
             },
             "fault_kinds_fired": {"process_restart": acc["restarts"],
                                   "clock_backward_jump": acc["clock_backward"]},
@@ -652,6 +658,8 @@ def _op(ctx, op):
     nstage0 = len(SIM.stage_calls)
     if kind in ("genotype", "multi", "debug"):
         prof, cnr = _profile_args(seg)
+        if op.get("exome"):
+            prof, cnr = op["exome"], None
         if kind == "multi":
             db = ",".join(os.path.join(wd, man["db"][g]) for g in op["genes"])
         else:
@@ -866,4 +874,5 @@ def run_segment(seg):
     res["solver"].pop("solve_log")
     res["clock_reads"] = ft.reads
     res["clock_backward"] = ft.backward
+    res["clock_span"] = ft.span
     return res
